@@ -641,7 +641,7 @@ impl<'a, 'input> Attribute<'a, 'input> {
     /// ```
     ///
     /// To reduce memory usage the qname length is limited by u16::MAX,
-    /// and the number of spaces around the equal sign is limited by u8::MAX.
+    /// and the length of the equal sign together with the spaces around it is limited by u8::MAX.
     /// If the attribute exceeds those limits then the start of the returned range will be incorrect.
     #[cfg(feature = "positions")]
     #[inline]
